@@ -17,6 +17,8 @@ Leaf(v)   == POpt(<<115>>, "str", {}, <<v>>)
 TSec(ins) == POpt(<<116>>, "sec", {"MULTI", "TITLE"}, ins)
 MSec(ins) == POpt(<<109>>, "sec", {"MULTI"}, ins)
 CSec(ins) == POpt(<<99>>,  "sec", {}, ins)
+(* a titled section that is not a multi section (no default instance: its only instance comes from the text, with a title) *)
+BSec(ins) == POpt(<<98>>,  "sec", {"TITLE", "NODEFAULT"}, ins)
 
 Tree ==
   PSec(NoTitle,
@@ -26,7 +28,8 @@ Tree ==
        TSec(<< PSec(<<97>>, <<Leaf(<<53>>)>>), PSec(<<97, 39, 98>>, <<Leaf(<<54>>)>>),
                PSec(<<49>>, <<Leaf(<<55>>)>>), PSec(<<109>>, <<Leaf(<<56>>)>>), PSec(<<97, 92>>, <<Leaf(<<57>>)>>),
                PSec(<<97, 61, 98>>, <<Leaf(<<58>>)>>) >>),        \* a title containing '=': "a=b"
-       CSec(<< PSec(NoTitle, << Leaf(<<120>>), MSec(<< PSec(NoTitle, <<Leaf(<<121>>)>>) >>) >>) >>) >>)
+       CSec(<< PSec(NoTitle, << Leaf(<<120>>), MSec(<< PSec(NoTitle, <<Leaf(<<121>>)>>) >>) >>) >>),
+       BSec(<< PSec(<<97>>, <<Leaf(<<59>>)>>) >>) >>)
 
 AlphaSet == {115, 109, 116, 99, cBar, cEq, cQ, cBsl, 48, 49, 57, 97, 98}
 
